@@ -308,6 +308,30 @@ class Inter:
         return t
 
     # ------------------------------------------------------------ guard expansion
+    def kinds_and_calls(self, b, depth=2, _seen=None):
+        """(VfsErrorKind variants built, short names of the calls made) by `b` and its closures, with calls to private in-crate
+        free functions / inherent helpers of the same file followed (`fn not_supported<R>() -> VfsResult<R>` shared by the provided
+        methods of a trait): what a body "only does", wherever the few statements sit"""
+        _seen = _seen or {b.id}
+        kinds, calls = set(), []
+        for cb in self.code_bodies(b):
+            for blk in cb.blocks:
+                if blk.cleanup:
+                    continue
+                for st in blk.stmts:
+                    if st.kind == "assign" and st.rv.kind == "agg" and st.rv.agg.get("adt") == "error::VfsErrorKind":
+                        kinds.add(st.rv.agg["variant"])
+            for s_ in self.sites(cb):
+                h = self.local_callee(s_)
+                if depth > 0 and h is not None and h.id not in _seen and h.kind != "Closure" and h.vis != "pub" and \
+                        not (h.impl and h.impl.get("trait")) and not h.trait_item_of and h.file == b.file:
+                    k2, c2 = self.kinds_and_calls(h, depth - 1, _seen | {h.id})
+                    kinds |= k2
+                    calls += c2
+                else:
+                    calls.append(s_.short)
+        return kinds, calls
+
     def expand_guards(self, guards, depth=3):
         """add guards implied by `callee(...) is ok`: the guards common to all Ok-returning cases
         of an in-crate callee, substituted with the actual arguments"""
